@@ -49,6 +49,13 @@ def build_pools(ck, tier, rnd, langs=gen.LANGS, tag="x"):
         rows = [a for a, b in tab["reduce"]] + [b for a, b in tab["compose"]]
         for a in rnd.sample(rows, min(len(rows), 10)):
             ts.append(text(a) + rnd.choice(["ngel", "ltima", "rbol"]) + " " + rnd.choice(base).split(" ")[0])
+        # titles made of function words only ("The Who", "Der Die Das") and of one-letter words only ("U.S.A.", "Q & A")
+        fw_all = [text(w["w"]) for w in gen.LANGTAB[lang]["function_words"] if " " not in text(w["w"])]
+        for _k in range(4 if fw_all else 0):
+            ws_ = rnd.sample(fw_all, min(len(fw_all), rnd.randint(2, 3)))
+            ts.append(" ".join(w.capitalize() if rnd.random() < 0.5 else w for w in ws_))
+        sl = gen.script_letters(lang)
+        ts += [".".join(rnd.sample(sl, 3)).upper() + ".", rnd.choice(sl).upper() + " & " + rnd.choice(sl).upper()]
         # the special shapes make up roughly a quarter of every pool
         ts = list(ts) + gen.SPECIAL_TITLES * max(1, round(len(ts) / (3.0 * len(gen.SPECIAL_TITLES))))
         pools[lang] = list(ts)
@@ -570,6 +577,10 @@ def cases_for(prop, tier, seed, pools, toks, ck):
     if prop == "C03":
         for lang in L:
             cases += gen.gen_prefix_cases(lang, rnd, pools[lang], toks, per(14, 400))
+            # a title of a dozen words (more grams and more word characters than any record of the bundled data set)
+            longs = [" ".join(rnd.sample(pools[lang], 9))[:196].rstrip() for _k in range(per(1, 8))]
+            more_toks(ck, toks, [(lang, t) for t in longs], "pre_c03")
+            cases += gen.gen_prefix_cases(lang, rnd, longs, toks, len(longs))
         cases += gen.gen_huge_store_cases("C03", rnd.choice(L), rnd, pools["en"], per(1, 6))
     elif prop == "C04":
         for lang in L:
@@ -577,9 +588,10 @@ def cases_for(prop, tier, seed, pools, toks, ck):
             # titles of a dozen words (listings with the whole description in the title): far more grams than any record of
             # the bundled data set has
             for _k in range(per(2, 20)):
-                bw.append(" ".join(rnd.sample(pools[lang], 3))[:190])
+                bw.append(" ".join(rnd.sample(pools[lang], 8))[:190].rstrip())
             more_toks(ck, toks, [(lang, t) for t in bw], "pre_c04")
             cases += gen.gen_edit_cases(lang, rnd, pools[lang], toks, per(6, 150), per_pos=per(1, 3), extra=bw)
+        cases += gen.gen_huge_store_cases("C04", rnd.choice(L), rnd, pools["en"], per(1, 6))
     elif prop == "C13":
         for lang in L:
             echo = gen.compound_echo_titles(rnd, pools[lang], per(8, 60))
